@@ -113,6 +113,10 @@ static void verif_fail(const char* msg) { fprintf(stderr, "VERIF_ASSERT failed: 
   static void vec_##TAG##_reserve(vec_##TAG* v, size_t n) { if (n > VERIF_VEC_MAXN(T)) { verif_exc = EXC_std_length_error; } } \
   static void vec_##TAG##_resize(vec_##TAG* v, size_t n) { if (n > VERIF_VEC_MAXN(T)) { verif_exc = EXC_std_length_error; return; } \
     VERIF_ASSUME(n <= v->cap); v->size = n; } \
+  /* resize(n) of a vector of std::optional: appended elements are value-initialised = disengaged (all zero), stated for the ghost positions */ \
+  static void vec_##TAG##_resize_zero(vec_##TAG* v, size_t n) { size_t old = v->size; vec_##TAG##_resize(v, n); \
+    if (verif_exc == 0 && verif_g >= old && verif_g < n) memset(&v->data[verif_g], 0, sizeof(T)); \
+    if (verif_exc == 0 && verif_g2 >= old && verif_g2 < n) memset(&v->data[verif_g2], 0, sizeof(T)); } \
   static void vec_##TAG##_resize_val(vec_##TAG* v, size_t n, T x) { size_t old = v->size; vec_##TAG##_resize(v, n); \
     /* every appended element is a copy of x: stated for the ghost positions */ \
     if (verif_exc == 0 && verif_g >= old && verif_g < n) v->data[verif_g] = x; if (verif_exc == 0 && verif_g2 >= old && verif_g2 < n) v->data[verif_g2] = x; } \
@@ -156,6 +160,7 @@ static void* verif_alloc(size_t n, size_t sz)
   static void vec_##TAG##_resize(vec_##TAG* v, size_t n) { if (n > VERIF_VEC_MAXN(T)) { verif_exc = EXC_std_length_error; return; } \
     VERIF_ASSUME(n <= VERIF_CAP_BYTES / sizeof(T)); VERIF_NATIVE_RESERVE_GUARD(n, T) vec_##TAG##_grow(v, n); \
     for (size_t i = v->size; i < n; ++i) VERIF_MODEL_LOOP { memset(&v->data[i], 0, sizeof(T)); } v->size = n; } \
+  static void vec_##TAG##_resize_zero(vec_##TAG* v, size_t n) { vec_##TAG##_resize(v, n); /* the precise resize zero-fills */ } \
   static void vec_##TAG##_resize_val(vec_##TAG* v, size_t n, T x) { size_t old = v->size; vec_##TAG##_resize(v, n); \
     if (verif_exc == 0) for (size_t i = old; i < n; ++i) VERIF_MODEL_LOOP { v->data[i] = x; } } \
   static void vec_##TAG##_push_back(vec_##TAG* v, T x) { vec_##TAG##_grow(v, v->size + 1); v->data[v->size] = x; v->size++; } \
